@@ -69,7 +69,7 @@ type adversary struct {
 	counts    map[string]int64
 	accepted  int64
 	rejected  int64
-	noHandler bool
+	noHandler atomic.Bool
 	pcount    int
 	shape     atomic.Uint32 // packed hashShape the members were found to sign
 }
@@ -295,7 +295,7 @@ func (a *adversary) sigReq(w *world, to int, id string, any *anypb.Any, tag, lab
 	h := a.wireHash(w, id, a.me, any)
 	raw, ok := w.net.Inject(mon.members[a.me].id, mon.members[to].id, protoSig, &pb.BCastSigRequest{Id: id, Message: any})
 	if !ok {
-		a.noHandler = true
+		a.noHandler.Store(true)
 		return false
 	}
 	res := "refused"
@@ -314,6 +314,7 @@ func (a *adversary) sigReq(w *world, to int, id string, any *anypb.Any, tag, lab
 					res = "signed-unspecified-hash-shape"
 				}
 				a.learn(w.idx, to, h, sig)
+				mon.recordSignedPayload(w, to, a.me, id, any, tag)
 				k := fmt.Sprintf("%d|%d|%s", w.idx, to, id)
 				a.mu.Lock()
 				if a.signedFor[k] == nil {
@@ -348,7 +349,7 @@ func (a *adversary) sendMsg(w *world, to int, m fullMsg, label string) bool {
 	before := mon.advDelivered(w, to)
 	_, ok := w.net.Inject(mon.members[a.me].id, mon.members[to].id, protoMsg, &pb.BCastMessage{Id: m.id, Message: m.any, Signatures: m.sigs})
 	if !ok {
-		a.noHandler = true
+		a.noHandler.Store(true)
 		return false
 	}
 	delivered := mon.advDelivered(w, to) > before
@@ -552,15 +553,17 @@ func (a *adversary) step() {
 	w := a.mon.worlds[a.rng.Intn(len(a.mon.worlds))]
 	x := a.rng.Intn(100)
 	switch {
-	case x < 13:
+	case x < 11:
 		a.playOwnBroadcast(w, a.pickID(w, false), "own-broadcast")
-	case x < 29:
+	case x < 22:
 		a.playEquivocate(w, a.pickID(w, false))
-	case x < 44:
+	case x < 38:
+		a.playConcurrentEquivocate(w, a.pickID(w, true))
+	case x < 51:
 		a.playRelay(w)
-	case x < 55:
+	case x < 61:
 		a.playRelayCosigned(w)
-	case x < 66:
+	case x < 71:
 		a.playCrossSession(w)
 	case x < 86:
 		a.playManip(w)
@@ -647,6 +650,101 @@ func (a *adversary) playEquivocate(w *world, id string) {
 			a.sendMsg(w, to, m, label)
 		}
 	}
+}
+
+// playConcurrentEquivocate: 1..4 payloads under one id, and for every honest member all signature
+// requests (each possibly duplicated) are issued at the same moment from parallel goroutines
+// released by a barrier — per member in turn, or for all members at once. A member must still sign
+// at most one of the payloads; duplicates of one payload are fine. Whatever lists became complete
+// are then delivered, different payloads to different members.
+func (a *adversary) playConcurrentEquivocate(w *world, id string) {
+	type pa struct {
+		p   *payload
+		any *anypb.Any
+	}
+	k := 1 + a.rng.Intn(4) // 1 = concurrent duplicates of a single payload only
+	var ps []pa
+	for i := 0; i < k; i++ {
+		p := a.newPayload(kindOfID(id)) // well-formed: the request has to get as far as the signing
+		enc := 0
+		if a.rng.Intn(6) == 0 {
+			enc = 1 + a.rng.Intn(len(p.encs)-1)
+		}
+		ps = append(ps, pa{p, p.encs[enc]})
+	}
+	type shot struct{ to, pi int }
+	var rounds [][]shot
+	members := a.honest2(false)
+	allAtOnce := a.rng.Intn(2) == 0
+	var cur []shot
+	for _, to := range members {
+		for pi := range ps {
+			copies := 1
+			if k == 1 || a.rng.Intn(4) == 0 {
+				copies = 2 + a.rng.Intn(2)
+			}
+			for c := 0; c < copies; c++ {
+				cur = append(cur, shot{to, pi})
+			}
+		}
+		if !allAtOnce {
+			rounds = append(rounds, cur)
+			cur = nil
+		}
+	}
+	if allAtOnce {
+		rounds = append(rounds, cur)
+	}
+	label := "concurrent-equivocation"
+	if k == 1 {
+		label = "concurrent-duplicates"
+	}
+	for _, round := range rounds {
+		a.rng.Shuffle(len(round), func(i, j int) { round[i], round[j] = round[j], round[i] })
+		start := make(chan struct{})
+		var wg sync.WaitGroup
+		for _, sh := range round {
+			wg.Add(1)
+			go func() {
+				defer wg.Done()
+				<-start
+				a.sigReq(w, sh.to, id, ps[sh.pi].any, ps[sh.pi].p.Tag, label)
+			}()
+		}
+		close(start)
+		wg.Wait()
+	}
+	if k > 1 {
+		a.count("adv_concurrent_sigreq_races", int64(len(members)))
+	} else {
+		a.count("adv_concurrent_duplicate_races", int64(len(members)))
+	}
+	// Complete what can be completed; hand different payloads to different members.
+	var full []fullMsg
+	for _, x := range ps {
+		sigs, complete := a.buildSigs(w, id, x.any, kit.Pick(a.rng, fillers), nil)
+		m := fullMsg{world: w.idx, sender: a.me, id: id, any: x.any, sigs: sigs, tag: x.p.Tag}
+		if complete {
+			full = append(full, m)
+			continue
+		}
+		a.sendMsg(w, a.honest()[a.rng.Intn(a.mon.n-1)], m, label+"-incomplete")
+	}
+	if len(full) > 1 {
+		a.count("adv_concurrent_equivocation_extra_full_lists", int64(len(full)-1))
+	}
+	if len(full) == 0 {
+		return
+	}
+	for i, to := range a.honest2(false) {
+		a.sendMsg(w, to, full[i%len(full)], label)
+		if a.rng.Intn(4) == 0 {
+			a.sendMsg(w, to, full[a.rng.Intn(len(full))], label)
+		}
+	}
+	a.mu.Lock()
+	a.own = append(a.own, full[0])
+	a.mu.Unlock()
 }
 
 func (a *adversary) foreignIn(w *world) []fullMsg {
